@@ -1,3 +1,257 @@
-(* C18 -- windows and buffers partition the source correctly (placeholder, filled below). *)
-From RxVerif Require Import Base.Prelude Ops.Machine Ops.MultiWin Ops.Windows.
-Example C18_placeholder : (1 + 1 = 2)%nat. Proof. reflexivity. Qed.
+(* C18 -- windows and buffers partition the source correctly.
+   Machines: Ops/Windows.v (window_with_count / _time / _time_or_count, window(boundaries),
+   window_when, window_toggle over group_join; buffers = [buffered] windows), run by the
+   window-aware runner Ops/MultiWin.v (handed observables, RefCountDisposable). *)
+From RxVerif Require Import Base.Prelude Ops.Machine Ops.MultiWin Ops.MultiWinFacts Ops.Windows
+  Ops.WindowCountFacts Ops.WindowFacts Ops.BufferFacts.
+
+(* ---- count-based windows: closed form for ALL count >= 1, skip >= 1 ---------- *)
+(* window k holds exactly elements k*skip .. k*skip+count-1 (in order), completes right after the
+   last of them, or ends with the source's terminal if that comes first *)
+Theorem C18_window_count_index : forall A count skip, 0 < count -> 0 < skip ->
+  forall B (xs : list A) (tm : term) (k : nat),
+  wevents k (fst (run all_imm (x_window_count (A:=A) (B:=B) count skip) (src_events xs tm)))
+  = map Next (ztake count (zskip (Z.of_nat k * skip) xs))
+    ++ (if Z.of_nat k * skip + count <=? zlen xs then [Done]
+        else if Z.of_nat k * skip <=? zlen xs then term_ev tm else []).
+Proof. exact @window_count_index. Qed.
+Print Assumptions C18_window_count_index.
+
+(* window k is handed iff k*skip <= number of source elements; windows come in order *)
+Theorem C18_window_count_hands : forall A count skip, 0 < count -> 0 < skip ->
+  forall B (xs : list A) (tm : term),
+  map fst (hands (fst (run all_imm (x_window_count (A:=A) (B:=B) count skip) (src_events xs tm))))
+  = seq 0 (Z.to_nat (zlen xs / skip) + 1).
+Proof. exact @window_count_hands. Qed.
+Print Assumptions C18_window_count_hands.
+
+(* q.pop(0) never meets an empty queue *)
+Theorem C18_window_count_pop_safe : forall count skip, 0 < count -> 0 < skip ->
+  forall s n lo nx, wc_inv count skip s n lo nx ->
+  (0 <=? wc_n s - count + 1) && ((wc_n s - count + 1) mod skip =? 0) = true -> wc_q s <> [].
+Proof. exact @wcount_pop_safe. Qed.
+Print Assumptions C18_window_count_pop_safe.
+
+(* ---- routing, every rule, EVERY state (= every input history) ------------------ *)
+(* a source element goes to exactly the windows open when it arrives, in opening order; the
+   source's terminal ends exactly the open windows with its kind, and the outer sequence *)
+Theorem C18_count_routes : forall A B count skip, routes (x_window_count (A:=A) (B:=B) count skip) wc_q Complete.
+Proof. exact @window_count_routes. Qed.
+Theorem C18_time_routes : forall A B span shift, routes (x_window_time (A:=A) (B:=B) span shift) wt_q Complete.
+Proof. exact @window_time_routes. Qed.
+Theorem C18_time_or_count_routes : forall A B span count,
+  routes (x_window_time_or_count (A:=A) (B:=B) span count) (fun s => [wtc_cur s]) Complete.
+Proof. exact @window_time_or_count_routes. Qed.
+Theorem C18_boundaries_routes : forall A B, routes (x_window_boundaries (A:=A) (B:=B)) (fun s => [fst s]) Complete.
+Proof. exact @window_boundaries_routes. Qed.
+Theorem C18_when_routes : forall A B mapper, routes (x_window_when (A:=A) (B:=B) mapper) (fun s => [ww_cur s]) Complete.
+Proof. exact @window_when_routes. Qed.
+(* toggle: the source's completion completes the open windows (after the proposed fix); the outer
+   sequence follows the openings *)
+Theorem C18_toggle_routes : forall A B mapper, routes (x_window_toggle (A:=A) (B:=B) mapper) wg_windows Cont.
+Proof. exact @window_toggle_routes. Qed.
+Print Assumptions C18_count_routes.
+Print Assumptions C18_time_routes.
+Print Assumptions C18_time_or_count_routes.
+Print Assumptions C18_boundaries_routes.
+Print Assumptions C18_when_routes.
+Print Assumptions C18_toggle_routes.
+
+(* ---- time windows: the timer chain visits the edges k*shift and span + k*shift in order --- *)
+Theorem C18_time_start : forall A B span shift, 0 < span -> 0 < shift ->
+  wt_inv span shift (fst (fst (x_start (x_window_time (A:=A) (B:=B) span shift)))) 0 0
+  /\ snd (fst (x_start (x_window_time (A:=A) (B:=B) span shift)))
+     = [CHand 0%nat 0; CTimer 0%nat (Z.min shift span); CSub 0%nat].
+Proof. exact @wt_start_inv. Qed.
+Print Assumptions C18_time_start.
+
+(* after a shift edges and b span edges: the firing opens window a+1 iff (a+1)*shift is due,
+   closes window b iff span + b*shift is due, and schedules the next edge at its exact distance *)
+Theorem C18_time_tick : forall A B span shift, 0 < span -> 0 < shift -> forall s a b,
+  wt_inv span shift s a b ->
+  let a' := if wt_is_shift s then S a else a in
+  let b' := if wt_is_span s then S b else b in
+  wt_inv span shift (fst (wt_action (A:=A) (B:=B) shift s)) a' b'
+  /\ snd (wt_action (A:=A) (B:=B) shift s)
+     = (if wt_is_shift s then [CHand (S a) 0] else []) ++ (if wt_is_span s then [CWin b Done] else [])
+       ++ [CTimer (wt_ntag s) (Z.min ((Z.of_nat a' + 1) * shift) (span + Z.of_nat b' * shift) - wt_total s)].
+Proof. exact @wt_tick. Qed.
+Print Assumptions C18_time_tick.
+
+Theorem C18_time_chain_always : forall A B span shift, 0 < span -> 0 < shift ->
+  forall (imm : nat -> bool) (ins : list (Z * inp A)),
+  exists a b, wt_inv span shift
+    (fst (after imm (x_window_time (A:=A) (B:=B) span shift)
+                (fst (start_state imm (x_window_time (A:=A) (B:=B) span shift)))
+                (snd (start_state imm (x_window_time (A:=A) (B:=B) span shift))) ins)) a b.
+Proof. exact @wt_always. Qed.
+Print Assumptions C18_time_chain_always.
+
+Theorem C18_time_pop_safe : forall span shift, 0 < span -> 0 < shift -> forall s a b,
+  wt_inv span shift s a b -> wt_is_span s = true ->
+  (if wt_is_shift s then wt_q s ++ [wt_next s] else wt_q s) <> [].
+Proof. exact @wt_pop_safe. Qed.
+Print Assumptions C18_time_pop_safe.
+
+(* ---- time-or-count ---------------------------------------------------------------- *)
+Theorem C18_toc_timer_closes : forall A B span count, 0 < count -> forall s now tag, wtc_inv count s ->
+  snd (fst (x_step (x_window_time_or_count (A:=A) (B:=B) span count) s now (ITick tag)))
+  = snd (wtc_roll (A:=A) (B:=B) span s)
+  /\ wtc_inv count (fst (fst (x_step (x_window_time_or_count (A:=A) (B:=B) span count) s now (ITick tag)))).
+Proof. exact @wtc_tick. Qed.
+Theorem C18_toc_count_closes : forall A B span count, 0 < count -> forall s now k (x : A), wtc_inv count s ->
+  wtc_inv count (fst (fst (x_step (x_window_time_or_count (A:=A) (B:=B) span count) s now (ISrc k (Next x)))))
+  /\ snd (fst (x_step (x_window_time_or_count (A:=A) (B:=B) span count) s now (ISrc k (Next x))))
+     = CWin (wtc_cur s) (Next x) :: (if wtc_n s + 1 =? count then snd (wtc_roll (A:=A) (B:=B) span s) else [])
+  /\ wtc_n (fst (fst (x_step (x_window_time_or_count (A:=A) (B:=B) span count) s now (ISrc k (Next x)))))
+     = (if wtc_n s + 1 =? count then 0 else wtc_n s + 1).
+Proof. exact @wtc_next_elem. Qed.
+Theorem C18_toc_roll : forall A B span count, 0 < count -> forall s, wtc_inv count s ->
+  wtc_inv count (fst (wtc_roll (A:=A) (B:=B) span s))
+  /\ snd (wtc_roll (A:=A) (B:=B) span s)
+     = [CWin (wtc_cur s) Done; CHand (S (wtc_cur s)) 0]
+       ++ match wtc_ttag s with Some t => [CCancel t] | None => [] end ++ [CTimer (wtc_ntag s) (Z.max 0 span)]
+  /\ wtc_cur (fst (wtc_roll (A:=A) (B:=B) span s)) = S (wtc_cur s).
+Proof. exact @wtc_roll_spec. Qed.
+Theorem C18_toc_always : forall A B span count, 0 < count -> forall (imm : nat -> bool) (ins : list (Z * inp A)),
+  wtc_inv count (fst (after imm (x_window_time_or_count (A:=A) (B:=B) span count)
+                            (fst (start_state imm (x_window_time_or_count (A:=A) (B:=B) span count)))
+                            (snd (start_state imm (x_window_time_or_count (A:=A) (B:=B) span count))) ins)).
+Proof. exact @wtc_always. Qed.
+Print Assumptions C18_toc_timer_closes.
+Print Assumptions C18_toc_count_closes.
+Print Assumptions C18_toc_roll.
+Print Assumptions C18_toc_always.
+
+(* ---- boundaries / closing selector / toggle ------------------------------------------- *)
+Theorem C18_boundary_rule : forall A B cur next now k (v : A),
+  x_step (x_window_boundaries (A:=A) (B:=B)) (cur, next) now (ISrc (S k) (Next v))
+  = ((next, S next), [CWin cur Done; CHand next 0], Cont).
+Proof. exact @window_boundary_rule. Qed.
+Theorem C18_when_rule : forall A B mapper s now k (e : ev A), (forall z, e <> Err z) ->
+  exists c f,
+    x_step (x_window_when (A:=A) (B:=B) mapper) s now (ISrc (S k) e)
+    = (fst (fst (ww_arm (A:=A) (B:=B) mapper (WwSt (ww_next s) (S (ww_next s)) (ww_calls s) (ww_closing s)))),
+       [CWin (ww_cur s) Done; CHand (ww_next s) 0; CUnsub (S k)] ++ c, f)
+    /\ f = snd (ww_arm (A:=A) (B:=B) mapper (WwSt (ww_next s) (S (ww_next s)) (ww_calls s) (ww_closing s))).
+Proof. exact @window_when_rule. Qed.
+Theorem C18_toggle_open_rule : forall A B mapper s now (v : A), mapper (wg_calls s) = Ok tt ->
+  x_step (x_window_toggle (A:=A) (B:=B) mapper) s now (ISrc 1%nat (Next v))
+  = (WgSt (wg_open s ++ [(wg_next s, (2 + wg_calls s)%nat)]) (S (wg_next s)) (S (wg_calls s)),
+     [CHand (wg_next s) 0; CSub (2 + wg_calls s)%nat], Cont).
+Proof. exact @window_toggle_open_rule. Qed.
+Theorem C18_toggle_close_rule : forall A B mapper s now k (e : ev A) g,
+  (forall z, e <> Err z) -> wg_find (S (S k)) (wg_open s) = Some g ->
+  snd (fst (x_step (x_window_toggle (A:=A) (B:=B) mapper) s now (ISrc (S (S k)) e))) = [CWin g Done; CUnsub (S (S k))]
+  /\ wg_open (fst (fst (x_step (x_window_toggle (A:=A) (B:=B) mapper) s now (ISrc (S (S k)) e))))
+     = filter (fun gc => negb (Nat.eqb (S (S k)) (snd gc))) (wg_open s).
+Proof. exact @window_toggle_close_rule. Qed.
+Theorem C18_toggle_error_fanout : forall A B mapper s now k z,
+  x_step (x_window_toggle (A:=A) (B:=B) mapper) s now (ISrc k (Err z)) = (s, wins_all (wg_windows s) (Err z), Fail z).
+Proof. exact @window_toggle_error_fanout. Qed.
+Print Assumptions C18_boundary_rule.
+Print Assumptions C18_when_rule.
+Print Assumptions C18_toggle_open_rule.
+Print Assumptions C18_toggle_close_rule.
+Print Assumptions C18_toggle_error_fanout.
+
+(* ---- buffers: each buffer equals the contents of its window ----------------------------- *)
+Theorem C18_buffer_tracks_window : forall A B0 keep g (cs : list (cmd A B0)) open od b,
+  quiet g cs -> buf_get g open = Some b -> snd (buf_cmds keep open od cs) = Cont ->
+  buf_get g (fst (fst (buf_cmds keep open od cs))) = Some (b ++ nexts_of g cs).
+Proof. exact @buffer_tracks_window. Qed.
+Theorem C18_buffer_is_window_contents : forall A B0 keep g key (mid post : list (cmd A B0)) open od,
+  buf_get g open = None -> quiet g mid ->
+  snd (buf_cmds keep (open ++ [(g, [])]) od mid) = Cont ->
+  let o1 := fst (fst (buf_cmds keep (open ++ [(g, [])]) od mid)) in
+  let content := nexts_of g mid in
+  snd (fst (buf_cmds keep open od (CHand g key :: mid ++ CWin g Done :: post)))
+  = snd (fst (buf_cmds keep (open ++ [(g, [])]) od mid))
+    ++ (if keep || negb (match content with [] => true | _ => false end) then [CEmit content] else [])
+    ++ (if od && match buf_del g o1 with [] => true | _ => false end then []
+        else snd (fst (buf_cmds keep (buf_del g o1) od post))).
+Proof. exact @buffer_is_window_contents. Qed.
+Theorem C18_buffer_window_error : forall A B0 keep g z (post : list (cmd A B0)) open od b,
+  buf_get g open = Some b -> buf_cmds keep open od (CWin g (Err z) :: post) = (open, [], Fail z).
+Proof. exact @buffer_window_error. Qed.
+Print Assumptions C18_buffer_tracks_window.
+Print Assumptions C18_buffer_is_window_contents.
+Print Assumptions C18_buffer_window_error.
+
+(* ---- the release clauses (C02/C03 for handed windows), EVERY machine, policy, input sequence -- *)
+(* once the outer subscription ended AND no window subscription is live: nothing is left subscribed *)
+Theorem C18_release_when_all_ended : forall A W B (imm : nat -> bool) (m : machine A W B) ins,
+  r_outer (snd (run imm m ins)) = false -> r_wsubs (snd (run imm m ins)) = [] ->
+  r_live (snd (run imm m ins)) = [] /\ r_timers (snd (run imm m ins)) = [].
+Proof. exact @run_all_ended_released. Qed.
+Theorem C18_released_only_when_all_ended : forall A W B (imm : nat -> bool) (m : machine A W B) ins,
+  r_released (snd (run imm m ins)) = true ->
+  r_outer (snd (run imm m ins)) = false /\ r_wsubs (snd (run imm m ins)) = [].
+Proof. exact @run_released_only_when_all_ended. Qed.
+(* while the outer subscription or a window subscriber is live (= not released), a source the
+   machine does not unsubscribe itself stays subscribed until it terminates *)
+Theorem C18_source_stays_subscribed : forall A W B (imm : nat -> bool) (m : machine A W B) k ins s r,
+  never_unsubs m k -> mem k (r_live r) = true ->
+  (forall now e, In (now, ISrc k e) ins -> is_terminal e = false) ->
+  r_released (snd (after imm m s r ins)) = false ->
+  mem k (r_live (snd (after imm m s r ins))) = true.
+Proof. exact @source_stays_subscribed. Qed.
+Theorem C18_window_machines_keep_source : forall A B,
+  (forall count skip k, never_unsubs (x_window_count (A:=A) (B:=B) count skip) k)
+  /\ (forall span shift k, never_unsubs (x_window_time (A:=A) (B:=B) span shift) k)
+  /\ (forall span count k, never_unsubs (x_window_time_or_count (A:=A) (B:=B) span count) k)
+  /\ (forall k, never_unsubs (x_window_boundaries (A:=A) (B:=B)) k)
+  /\ (forall mapper, never_unsubs (x_window_when (A:=A) (B:=B) mapper) 0%nat)
+  /\ (forall mapper, never_unsubs (x_window_toggle (A:=A) (B:=B) mapper) 0%nat).
+Proof.
+  intros A B. exact (conj (@window_count_never_unsubs A B) (conj (@window_time_never_unsubs A B)
+    (conj (@window_time_or_count_never_unsubs A B) (conj (@window_boundaries_never_unsubs A B)
+    (conj (@window_when_never_unsubs_source A B) (@window_toggle_never_unsubs_source A B)))))).
+Qed.
+(* nothing reaches the subscriber on the outer after it ended *)
+Theorem C18_outer_silent_after_end : forall A W B (imm : nat -> bool) (m : machine A W B) ins s r k,
+  r_outer r = false -> forall x, In x (fst (run_from imm m s r k ins)) -> outer_obs (snd x) = false.
+Proof. exact @run_from_outer_silent. Qed.
+(* a window notification reaches exactly the live subscriptions of that window, once each *)
+Theorem C18_window_delivery : forall W B (imm : nat -> bool) (r : rstate W) g (e : ev W) j,
+  wobs (B:=B) j (snd (apply_cmd imm r (CWin g e)))
+  = if Nat.eqb j g
+    then match wterm_of g (r_wterm r) with Some _ => [] | None => repeat e (count_of g (r_wsubs r)) end
+    else [].
+Proof. exact @win_cmd_delivery. Qed.
+Print Assumptions C18_release_when_all_ended.
+Print Assumptions C18_released_only_when_all_ended.
+Print Assumptions C18_source_stays_subscribed.
+Print Assumptions C18_window_machines_keep_source.
+Print Assumptions C18_outer_silent_after_end.
+Print Assumptions C18_window_delivery.
+
+(* ---- witnesses (hypotheses satisfiable; behaviours exist) ------------------------------- *)
+Example C18_witness_count_overlapping :
+  map (fun k => wevents k (fst (run all_imm (x_window_count (B:=unit) 3 2) (src_events [10; 11; 12; 13; 14] TDone))))
+      [0; 1; 2; 3]%nat
+  = [[Next 10; Next 11; Next 12; Done]; [Next 12; Next 13; Next 14; Done]; [Next 14; Done]; []].
+Proof. vm_compute. reflexivity. Qed.
+Example C18_witness_count_gapped :
+  map (fun k => wevents k (fst (run all_imm (x_window_count (B:=unit) 2 3) (src_events [10; 11; 12; 13; 14; 15; 16] (TErr 7)))))
+      [0; 1; 2]%nat
+  = [[Next 10; Next 11; Done]; [Next 13; Next 14; Done]; [Next 16; Err 7]].
+Proof. vm_compute. reflexivity. Qed.
+Example C18_witness_time_chain :
+  (* span 20, shift 30 (gapped): edges 20 (close 0), 30 (open 1), 50 (close 1), 60 (open 2) *)
+  map snd (fst (run all_imm (x_window_time (A:=Z) (B:=unit) 20 30)
+       [(20, ITick 0%nat); (25, ISrc 0%nat (Next 5)); (30, ITick 1%nat); (35, ISrc 0%nat (Next 6)); (50, ITick 2%nat)]))
+  = [OHand 0%nat 0; OTimer 0%nat 20; OSub 0%nat; OWin 0%nat Done; OTimer 1%nat 10; OHand 1%nat 0; OTimer 2%nat 20;
+     OWin 1%nat (Next 6); OWin 1%nat Done; OTimer 3%nat 10].
+Proof. vm_compute. reflexivity. Qed.
+Example C18_witness_refcount :
+  (* the outer is disposed while window 0's subscriber is live: the source stays subscribed; it is
+     released when that subscriber leaves *)
+  map snd (fst (run all_imm (x_window_count (B:=unit) 5 5)
+       [(0, ISrc 0%nat (Next 1)); (1, IDispose); (2, ISrc 0%nat (Next 2)); (3, IUnsubWin 0%nat); (4, ISrc 0%nat (Next 3))]))
+  = [OHand 0%nat 0; OSub 0%nat; OWin 0%nat (Next 1); OWin 0%nat (Next 2); OUnsub 0%nat].
+Proof. vm_compute. reflexivity. Qed.
+Example C18_witness_buffer :
+  emitted (fst (run all_imm (x_buffer_count 2 3) (src_events [10; 11; 12; 13; 14; 15; 16] TDone)))
+  = [Next [10; 11]; Next [13; 14]; Next [16]; Done].
+Proof. vm_compute. reflexivity. Qed.
